@@ -29,6 +29,7 @@ USEA = ('bin', '>', VI, ('field', ('var', 'A'), 'x'))
 # the alias / the bound variable occurring only inside an index expression
 IDXA = ('bin', '>', ('index', ('field', ('this',), 'ys'), ('field', ('var', 'A'), 'x')), int_lit(0))
 IDXI = ('bin', '>', ('index', ('field', ('this',), 'ys'), VI), int_lit(0))
+USELT = ('bin', '<', VI, ('field', ('var', 'A'), 'x'))      # with xs = [-1, 3], @A.x = 0: `@i > 0` and `@i < @A.x` have separate witnesses
 
 
 def grammar(rng, n3):
@@ -36,7 +37,8 @@ def grammar(rng, n3):
     bodies = [USE, USEA, ('bin', 'and', USE, AB), ('bin', 'and', AB, USE), ('bin', 'and', USE, USEA), ('bin', 'and', USEA, B),
               ('un', 'not', ('bin', 'or', USE, AB)), ('un', 'not', ('bin', 'or', AB, USEA)), ('bin', 'implies', USE, AB),
               ('bin', 'and', ('bin', 'and', USE, B), USEA), ('bin', 'or', USE, AB), ('bin', 'and', B, AB),
-              ('bin', 'and', IDXI, AB), ('bin', 'and', IDXA, USE), ('bin', 'and', IDXI, IDXA)]
+              ('bin', 'and', IDXI, AB), ('bin', 'and', IDXA, USE), ('bin', 'and', IDXI, IDXA),
+              ('bin', 'and', USE, USELT), ('bin', 'and', USELT, USE), ('bin', 'or', USE, USELT), ('bin', 'and', ('bin', 'and', USE, USELT), B)]
     quants = [('quant', q, 'i', d, body) for q in ('all', 'some') for d in (XS, AXS) for body in bodies if not (body == ('bin', 'and', B, AB))]
     L1 = [('un', 'not', a) for a in atoms] + [('bin', op, a, b) for op in ('and', 'or', 'implies', 'iff') for a in atoms for b in atoms] + quants
     L2 = [('un', 'not', a) for a in L1] + [('bin', 'and', a, b) for a in L1 for b in atoms] + [('bin', 'and', a, b) for a in atoms for b in L1]
@@ -84,7 +86,9 @@ def run(ctx):
     genv = grid_envs()
     forms = grammar(rng, 300 if ctx.quick else 5000)
     if ctx.quick:
-        forms = forms[:120] + rng.sample(forms[120:], min(len(forms) - 120, 1500))
+        rest = forms[120:]
+        quants1 = [f for f in rest if f[0] == 'quant'] + [f for f in rest if f[0] == 'un' and f[2][0] == 'quant']
+        forms = forms[:120] + quants1 + rng.sample(rest, min(len(rest), 1400))
     cases = []
     rejects = 0
     for r in forms:
